@@ -103,7 +103,7 @@ def _case(draw):
     if draw(st.sampled_from([True, False, False, False])):
         case["first"] = draw(_font())  # the same writer instances are used on this font first
     names = [g["name"] for g in spec["glyphs"]]
-    if "a" in names and any(n in names for n in DS_RULE_ALTS) and draw(st.booleans()):
+    if "a" in names and any(n in names for n in DS_RULE_ALTS) and "public.skipExportGlyphs" not in spec["lib"] and draw(st.booleans()):
         # compiled as the masters of a designspace whose rules substitute 'a' by these alternates (per-master feature compilation)
         case["ds_rules"] = [["a", n] for n in DS_RULE_ALTS if n in names]
         case.pop("first", None)
